@@ -343,6 +343,18 @@ func Guard(prop, sig string, f func()) (v *Violation) {
 	return nil
 }
 
+// LogTrace prints the executed-event trace into the test log.
+func LogTrace(rt *rapid.T, tr *Trace) {
+	if tr == nil {
+		return
+	}
+	rt.Logf("VERIF-TRACE begin (%d events, hash %x)", tr.N, tr.Hash())
+	for i, l := range tr.Log {
+		rt.Logf("VERIF-TRACE %4d %s", i, l)
+	}
+	rt.Logf("VERIF-TRACE end")
+}
+
 // Harnessf reports an internal inconsistency of the harness itself (never a
 // property violation): the driver exits 2 on it.
 func Harnessf(rt *rapid.T, format string, args ...any) {
